@@ -344,6 +344,9 @@ def classify_exc(e):
         ("kernel-stub generator supports kernels that operate on one of", "stub-refused/operates-on"),
         ("Unsupported space for basis function", "stub-refused/basis-on-any-space"),
         ("Unsupported space for differential basis function", "stub-refused/diff-basis-on-any-space"),
+        # both generators crash on these (no call and no stub to compare)
+        ("found unsupported mesh property 'MeshProperty.NCELL_2D'", "refused/cma-kernel-with-mesh-properties"),
+        ("Literal[value:'NOT_INITIALISED'", "refused/dof-kernels-not-implemented"),
     ]
     for frag, code in table:
         if frag in msg:
@@ -358,8 +361,9 @@ def norm(s):
     return m.group(1) if m else s
 
 
-def run_case(spec, workdir, dm=False):
-    """Run PSy-layer generation and stub generation for the case whose files are in workdir."""
+def run_case(spec, workdir, dm=False, colour=False):
+    """Run PSy-layer generation and stub generation for the case whose files are in workdir.
+    dm: distributed memory on; colour: try to colour every loop (Dynamo0p3ColourTrans) first."""
     import gen as G     # noqa (props/C21 is on sys.path when called from check.py)
     from psyclone.parse.algorithm import parse
     from psyclone.psyGen import PSyFactory
@@ -379,6 +383,16 @@ def run_case(spec, workdir, dm=False):
         fparser.one.parsefortran.FortranParser.cache.clear()
         _, info = parse(str(afile), api="lfric", kernel_paths=[str(workdir)])
         psy = PSyFactory("lfric", distributed_memory=dm).create(info)
+        res["coloured"] = False
+        if colour:
+            from psyclone.transformations import Dynamo0p3ColourTrans, TransformationError
+            sched = psy.invokes.invoke_list[0].schedule
+            for loop in list(sched.loops()):
+                try:
+                    Dynamo0p3ColourTrans().apply(loop)
+                    res["coloured"] = True
+                except TransformationError:
+                    pass
         with Recording() as runs:
             text = str(psy.gen)
             kerns = psy.invokes.invoke_list[0].schedule.coded_kernels()
@@ -426,3 +440,23 @@ def run_case(spec, workdir, dm=False):
         res["stub_err"] = classify_exc(e)
         res["stub_exc"] = e
     return res
+
+
+def work(job):
+    """Worker entry point (multiprocessing): run a list of cases in this process."""
+    from pathlib import Path
+    specs, workdir = job
+    install_hooks()
+    out = []
+    import shutil
+    for sp in specs:
+        d = Path(workdir) / ("case_%s" % sp.get("id", sp["name"]))     # kernel names repeat (bc kernels)
+        d.mkdir(parents=True, exist_ok=True)
+        try:
+            r = run_case(sp, d, dm=sp.get("dm", False), colour=sp.get("colour", False))
+        finally:
+            shutil.rmtree(d, ignore_errors=True)
+        r.pop("call_exc", None)
+        r.pop("stub_exc", None)
+        out.append(r)
+    return out
